@@ -171,7 +171,7 @@ REGISTRY = {
         "rule": "baseline -q vs --mmap / default verbosity / -v / -vv / --color always|never / --stats / -A multiapply and combinations, over random series incl. failing ones, "
                 "zero-length source files, zero-length patch files, empty series, everything already applied, goal naming an applied patch; threads 1/4; backup always/default/never. "
                 "Non-trivial: the run fails or has at least one patch to apply; distinct by (workspace, shape, option set, configuration).",
-        "floor": floors(("shape:empty-source", 50), ("shape:empty-patch", 50), ("shape:empty-series", 50), ("shape:all-applied", 50), ("shape:goal-applied", 50), ("shape:symlinked-source", 50), ("shape:symlinked-patch", 50), ("failing-series", 200), ("options:--mmap", 100)),
+        "floor": floors(("shape:empty-source", 50), ("shape:empty-patch", 50), ("shape:empty-series", 50), ("shape:all-applied", 50), ("shape:goal-applied", 50), ("shape:symlinked-source", 50), ("shape:symlinked-patch", 50), ("shape:many-files-low-fd-limit", 50), ("failing-series", 200), ("options:--mmap", 100)),
     },
     "C15": {
         "level_text": "real pushes under strace on a workspace whose files are hard-linked into a twin tree; inode identity, twin content and every syscall on bystander files are checked",
